@@ -221,19 +221,30 @@ def run3d(data, mask, plane, line, size):
 
 def norm3d(ctx, bad, model_reqs, model_meta):
     rng = ctx.rng
-    cases = [("k2-witness", None), ("k3-witness", None)] + [("random", None)] * ctx.pick(70, 700)
-    for tag, _ in cases:
+    # flat input on a grid (2-D key points lifted with a constant z): the reference line exactly parallel to an image axis, in each of the four directions, for both
+    # windings of the plane triangle — the exact zeros such data produce in the rotated line (x == 0.0, y == 0.0) are where sign / atan2 conventions differ
+    aligned = []
+    for direction in [(0, -5, 0), (0, 5, 0), (5, 0, 0), (-5, 0, 0)]:
+        for side in [(3, 1, 0), (-3, 1, 0), (1, 3, 0), (1, -3, 0)]:
+            if direction[0] * side[1] - direction[1] * side[0] != 0:
+                aligned.append((direction, side))
+    cases = [("k2-witness", None), ("k3-witness", None)] + [("aligned", a) for a in aligned] + [("random", None)] * ctx.pick(70, 700)
+    for tag, cfg in cases:
         F, P, N = rng.randint(1, 3), rng.randint(1, 2), rng.randint(4, 7)
         if tag != "random":
             F, P, N = 1, 1, 5
         data = np.array([rng.randint(-40, 40) / 4 for _ in range(F * P * N * 3)], dtype=np.float64).reshape(F, P, N, 3)
         if tag != "random":
             data = np.array([[0, 0, 0], [4, 0, 1], [1, 3, 0], [2, 2, 5], [-3, 1, 2]], dtype=np.float64).reshape(1, 1, 5, 3)
+        if tag == "aligned":
+            w = np.array([10.0, 20.0, float(rng.choice([0, 0, 3]))]); d_, s_ = np.array(cfg[0], dtype=np.float64), np.array(cfg[1], dtype=np.float64)
+            data = np.array([w, w + d_, w + s_, (w + w + d_) / 2 + [0, 0, 7], w + s_ + [3, 5, -2]]).reshape(1, 1, 5, 3)
         plane = rng.sample(range(N), 3)
         line = rng.sample(range(N), 2) if rng.random() < 0.4 else rng.sample(plane, 2)
         size = rng.choice([1, 100, 200])
         if tag == "k2-witness": plane, line, size = [0, 1, 2], [0, 1], 100
         if tag == "k3-witness": plane, line, size = [0, 1, 2], [4, 3], 200
+        if tag == "aligned": plane, line, size = [0, 1, 2], [0, 1], rng.choice([1, 100])
         # preconditions: non-collinear plane, distinct line points whose direction is not along the plane normal
         ok = True
         for f in range(F):
